@@ -21,6 +21,7 @@ import petl
 
 from petlmon import catalogue as C
 from petlmon import probes, util
+from petlmon.run import HarnessError
 
 ID = 'C02'
 LEVEL = 'exploration'
@@ -34,7 +35,7 @@ ASSUMPTIONS = ['which operators are streaming is taken from the property text vi
                'two rows of look-ahead are legitimate (addfieldusingcontext, selectusingcontext, look overflow probe)']
 KS = [0, 1, 2, 5, 17]
 SHORT, LONG = 100, 10000
-REQUIRED = ['construction-judged', 'prefix-judged', 'extractor-judged', 'composition-depth>=3', 'vis-judged', 'header-readers-judged']
+REQUIRED = ['lazyarg-judged', 'construction-judged', 'prefix-judged', 'extractor-judged', 'composition-depth>=3', 'vis-judged', 'header-readers-judged']
 
 _files = {}
 
@@ -130,10 +131,19 @@ EXTRACTORS = {
     'fromcsv-header': lambda s: petl.fromcsv(s, header=['a', 'b', 'c']),
     'fromtsv': lambda s: petl.fromtsv(s),
     'fromtext': lambda s: petl.fromtext(s),
+    'fromtext-strip-false': lambda s: petl.fromtext(s, strip=False),
+    'fromtext-strip-chars': lambda s: petl.fromtext(s, strip='\n e'),
+    'fromtext-header': lambda s: petl.fromtext(s, header=('text',), encoding='ascii', errors='replace'),
+    'fromcsv-encoding': lambda s: petl.fromcsv(s, encoding='latin-1', errors='replace'),
+    'fromcsv-dialect-args': lambda s: petl.fromcsv(s, delimiter=',', quotechar='"', skipinitialspace=True),
+    'fromtsv-header': lambda s: petl.fromtsv(s, header=['a', 'b', 'c']),
+    'fromtext+capture+head': lambda s: petl.head(petl.capture(petl.fromtext(s, strip=False), 'lines', '(\\d+)', ['n']), 20),
     'frompickle': lambda s: petl.frompickle(s),
     'fromcsv+cut+select+head': lambda s: petl.head(petl.selectne(petl.cut(petl.fromcsv(s), 'f0', 'f2'), 'f0', 'zzz'), 30),
 }
-EXT_FILE = {'fromcsv': 'csv', 'fromcsv-header': 'csv', 'fromtsv': 'tsv', 'fromtext': 'text', 'frompickle': 'pickle', 'fromcsv+cut+select+head': 'csv'}
+EXT_FILE = {'fromtext-strip-false': 'text', 'fromtext-strip-chars': 'text', 'fromtext-header': 'text', 'fromcsv-encoding': 'csv',
+            'fromcsv-dialect-args': 'csv', 'fromtsv-header': 'tsv', 'fromtext+capture+head': 'text',
+            'fromcsv': 'csv', 'fromcsv-header': 'csv', 'fromtsv': 'tsv', 'fromtext': 'text', 'frompickle': 'pickle', 'fromcsv+cut+select+head': 'csv'}
 
 VIS = {
     'look': lambda v: repr(petl.look(v)),
@@ -176,6 +186,25 @@ SCHEMA_SAFE = ['cat', 'stack', 'rowslice', 'rowslice-step', 'skipcomments', 'sel
 NOT_CONSTRUCTORS = {'fromcolumns(columns)', 'facet', 'stringpatterns', 'rowlengths'}
 
 
+# operators that take a container *argument*: when the argument is itself a lazy petl container over a source, constructing
+# the view must not scan it either (the argument is only consulted while rows are produced)
+LAZYARG = {
+    'selectin(values)': lambda t, arg: petl.selectin(t, 'f0', arg),
+    'selectnotin(values)': lambda t, arg: petl.selectnotin(t, 'f0', arg),
+    'selectin(values)-complement': lambda t, arg: petl.selectin(t, 'f0', arg, complement=True),
+    'addcolumn(values)': lambda t, arg: petl.addcolumn(t, 'new', arg),
+    'addcolumn(values)-index': lambda t, arg: petl.addcolumn(t, 'new', arg, index=0),
+    'select-expr-in(values)': lambda t, arg: petl.select(t, lambda r: r[0] in arg),
+    'convert-membership(values)': lambda t, arg: petl.convert(t, 'f0', lambda v: v in arg),
+    'addfield-membership(values)': lambda t, arg: petl.addfield(t, 'new', lambda r: r[0] in arg),
+}
+LAZYARG_FORMS = {
+    'values': lambda s: petl.values(s, 'f0'),
+    'values-cut': lambda s: petl.values(petl.cut(s, 'f0'), 0),
+    'data-col': lambda s: petl.values(petl.convert(s, 'f0', str), 'f0'),
+}
+
+
 def _with_config(name, value, fn):
     from petl import config as pcfg
     old = getattr(pcfg, name)
@@ -204,6 +233,9 @@ def cases(ctx):
             yield {'clause': 'extractor', 'op': name, 'k': k}
     for name in VIS:
         yield {'clause': 'vis', 'op': name}
+    for name in LAZYARG:
+        for form in LAZYARG_FORMS:
+            yield {'clause': 'lazyarg', 'op': name, 'form': form}
     rng = ctx.rng('compose')
     names = _streaming_unary()
     for i in range(ctx.pick(2500, 40000)):
@@ -244,6 +276,8 @@ def judge(case, ctx):
         return _judge_prefix(case, ctx, lambda srcs: _apply_chain(chain, srcs[0]), 1, 0, la, None)
     if clause == 'extractor':
         return _judge_extractor(case, ctx)
+    if clause == 'lazyarg':
+        return _judge_lazyarg(case, ctx)
     return _judge_vis(case, ctx)
 
 
@@ -309,6 +343,25 @@ def _judge_prefix(case, ctx, build, arity, stream, lookahead, e):
     slack = 2
     if pulls[SHORT] > m + slack:
         return {'kind': 'pulled-more-than-k-plus-constant', 'k': k, 'pulls': pulls, 'minimal-prefix': m, 'slack': slack}
+    return None
+
+
+def _judge_lazyarg(case, ctx):
+    t, a = _src(SHORT), _src(SHORT)
+    arg = LAZYARG_FORMS[case['form']](a)
+    if a.data_pulls:
+        raise HarnessError('the lazy argument form itself reads data rows')
+    view = LAZYARG[case['op']](t, arg)
+    ctx.seen('lazyarg-judged')
+    ctx.mark_nontrivial()
+    for which, s in (('table', t), ('argument', a)):
+        if s.data_pulls:
+            return {'kind': 'construction-read-data-rows', 'input': which, 'pulls': s.counts()}
+    # the view works: its first rows come out, and only now the argument is consulted
+    got = _take(view, 2)
+    if not got:
+        return {'kind': 'prefix-shorter-than-on-list-input', 'got': len(got)}
+    del view
     return None
 
 
